@@ -195,7 +195,10 @@ fn run_case(case: &Value) -> Value {
         } else if *a == "@FIFO" {
             *a = tmp.join("in.fifo").to_string_lossy().to_string();
         } else if let Some(n) = a.strip_prefix("@FILE") {
-            *a = tmp.join(format!("f{}.json", n)).to_string_lossy().to_string();
+            let name = n.parse::<usize>().ok().and_then(|i| case["names"][i].as_str().map(|s| s.to_string())).unwrap_or_else(|| format!("f{}.json", n));
+            *a = tmp.join(name).to_string_lossy().to_string();
+        } else if let Some(rest) = a.strip_prefix("@DIR/") {
+            *a = tmp.join(rest).to_string_lossy().to_string();
         }
     }
     let mut full = vec!["jawk".to_string()];
@@ -212,7 +215,12 @@ fn run_case(case: &Value) -> Value {
         let _ = std::fs::create_dir_all(&tmp);
         tmp_used = true;
         for (i, f) in files.iter().enumerate() {
-            let path = tmp.join(format!("f{}.json", i));
+            // "names": optional relative paths for the files (sub-directories are created); default f<i>.json
+            let name = case["names"][i].as_str().map(|s| s.to_string()).unwrap_or_else(|| format!("f{}.json", i));
+            let path = tmp.join(&name);
+            if let Some(parent) = path.parent() {
+                let _ = std::fs::create_dir_all(parent);
+            }
             paths.push(path.to_string_lossy().to_string());
             let _ = std::fs::write(&path, unhex(f.as_str().unwrap_or("")));
             let key = format!("@FILE{}", i);
@@ -222,9 +230,23 @@ fn run_case(case: &Value) -> Value {
                 }
             }
         }
+        // "links": [[link path, target path]] - symbolic links inside the temporary directory (both relative to it)
+        if let Some(links) = case["links"].as_array() {
+            for l in links {
+                if let (Some(link), Some(target)) = (l[0].as_str(), l[1].as_str()) {
+                    let lp = tmp.join(link);
+                    if let Some(parent) = lp.parent() {
+                        let _ = std::fs::create_dir_all(parent);
+                    }
+                    let _ = std::os::unix::fs::symlink(tmp.join(target), lp);
+                }
+            }
+        }
         for a in argv.iter_mut() {
             if *a == "@DIR" {
                 *a = tmp.to_string_lossy().to_string();
+            } else if let Some(rest) = a.strip_prefix("@DIR/") {
+                *a = tmp.join(rest).to_string_lossy().to_string();
             }
         }
     }
